@@ -22,6 +22,7 @@ ASSUMPTIONS = ['canonical form compares type names, attribute dicts, container c
 SHRINK = 'hypothesis'
 SHRINK_EXAMPLES = 300
 TIME_BUDGET = {'quick': 150, 'thorough': 1500}
+FUZZ = {'quick': (2, 4000), 'thorough': (4, 200000)}     # coverage-guided shards: (processes, libFuzzer runs each)
 REQUIRED = {'quick': {'cycle': 20, 'shared_or_cycle': 100, 'slots': 50, 'reduce': 50, 'kwargs_passthrough': 50, 'copyreg_type': 50,
                       'kind:optin_false': 200, 'kind:stdlib_after': 200, 'kind:chain': 50},
             'thorough': {'cycle': 200, 'shared_or_cycle': 1000, 'slots': 500, 'reduce': 500, 'kwargs_passthrough': 500, 'copyreg_type': 500,
